@@ -395,13 +395,25 @@ def Node.processObj (fuel : Nat) (n : Node) (sid : Sid) (req : Request) : Node Ã
     | none => (n, .error b!"Not a valid database name", [])
     | some db =>
       if db.validLogin token userName then
+        -- release_selected_db: a session counts in one database at a time
+        let (n, evs0) : Node Ã— List Ev := match s.db with
+          | some prev =>
+            match n.db? prev with
+            | some pdb =>
+              match n.setConnCounter { pdb with conns := pdb.conns - 1 } with
+              | (n, pdb', evs) => (n.setDb pdb', evs)
+            | none => (n, [])
+          | none => (n, [])
         let s' := match userName with
           | some u => { s with db := some name, user := some u }
           | none => { s with db := some name }
         let n := n.setSession sid s'
-        let db := { db with conns := db.conns + 1 }
-        match n.setConnCounter db with
-        | (n, db, evs) => (n.setDb db, .ok, evs)
+        match n.db? name with
+        | some db =>
+          let db := { db with conns := db.conns + 1 }
+          match n.setConnCounter db with
+          | (n, db, evs) => (n.setDb db, .ok, evs0 ++ evs)
+        | none => (n, .ok, evs0)
       else (n, .error b!"Invalid token", [])
   | .createUser token userName =>
     n.withAccess (n.safeAccess sid Gen.userKeyPrefix .write) fun db =>
